@@ -26,7 +26,8 @@ CONSTANT Deviations   \* set of named deviations of the model from the code, use
                       \* and typical slips, one per operator family:
                       \*   "group-index-per-parent", "take-off-by-one", "first-no-flag",
                       \*   "lag-off-by-one", "split-no-store", "time-split-inactive-gt",
-                      \*   "tee-create-every-branch", "scan-error-loses-state", "batch-late"
+                      \*   "tee-create-every-branch", "scan-error-loses-state", "batch-late",
+                      \*   "tee-errors-last-branch-only"
 
 NotSet == <<"notset">>
 NoDefault == <<"nodefault">>
@@ -422,7 +423,8 @@ JoinStep(op, st, b, e) ==
                            h |-> [i \in DOMAIN h1 |-> IF i \in (base + 1)..(base + n) THEN FALSE ELSE h1[i]]],
                           <<NextEv(e.k, tuple)>>>>
                    ELSE <<[q |-> q1, h |-> h1], <<>>>>
-      [] OTHER -> <<st, <<e>>>>
+      \* an error produced inside a branch leaves the tee_map as it is
+      [] OTHER -> <<st, IF b = n \/ "tee-errors-last-branch-only" \notin Deviations THEN <<e>> ELSE <<>>>>
 
 InitOpState(op) ==
     IF op.op = "roll" THEN [n |-> EmptyFn, w |-> EmptyFn]
